@@ -87,6 +87,7 @@ type FuncSpec struct {
 	Ghosts     []Param        // ghost parameters (existentially supplied by use sites as fresh symbols)
 	Asserts    []CallAssert
 	Binds      []CallBind
+	Lets       []CallBind // "let name = expr after call callee#k": a local ghost fixed right after one call site
 	Implements string // interface contract this method must satisfy
 	AfterLoop  []CallAssert // "after loop N: assert e" (Ordinal = loop ordinal)
 	AllowKinds map[string]string // obligation kinds not checked in this function (assumptions, listed in the evidence)
@@ -311,7 +312,7 @@ func parseFnHeader(s string) (name string, params []Param, ret string, body stri
 }
 
 var clauseKeywords = []string{"requires", "ensures", "modifies", "loop", "use", "pure", "inline", "allow-panic",
-	"check-overflow", "ghost", "bind", "implements", "after", "no-recursion", "function", "assume", "allow-kind", "at", "trusted", "before", "fresh", "no-safety", "params", "results", "induction", "axiom"}
+	"check-overflow", "ghost", "bind", "let", "implements", "after", "no-recursion", "function", "assume", "allow-kind", "at", "trusted", "before", "fresh", "no-safety", "params", "results", "induction", "axiom"}
 
 func startsWithKeyword(s string) (string, string, bool) {
 	for _, k := range clauseKeywords {
@@ -687,6 +688,18 @@ func (sf *SpecFile) addItem(it *rawItem, pkg string) error {
 					return err
 				}
 				fs.Binds = append(fs.Binds, CallBind{Callee: m[1], Ordinal: n, Name: m[3], Expr: e})
+			case "let":
+				// let <name> = <expr> after call <callee>#<k>   (expr may use arg<i>, result<i> and the variables in scope)
+				m := regexp.MustCompile(`^(\w+)\s*=\s*(.*?)\s+after\s+call\s+(\S+?)#(\d+)$`).FindStringSubmatch(l.text)
+				if m == nil {
+					return fmt.Errorf("bad let clause %q", l.text)
+				}
+				n, _ := strconv.Atoi(m[4])
+				e, err := parseSpecExpr(m[2])
+				if err != nil {
+					return err
+				}
+				fs.Lets = append(fs.Lets, CallBind{Callee: m[3], Ordinal: n, Name: m[1], Expr: e})
 			case "at":
 				m := regexp.MustCompile(`^return\s*(\d*)\s*:\s*assert\s+(.*)$`).FindStringSubmatch(l.text)
 				if m == nil {
